@@ -786,7 +786,12 @@ func (self *pnSlice) Swap(i, j int) {
 }
 
 func (self pnSlice) Less(i, j int) bool {
-	return int(uintptr(self.a[i].Node.v)) < int(uintptr(self.a[j].Node.v))
+	vi, vj := uintptr(self.a[i].Node.v), uintptr(self.a[j].Node.v)
+	if vi == vj {
+		// a not-found (zero-length) node means an insertion before the element at the same address
+		return self.a[i].Node.l < self.a[j].Node.l
+	}
+	return vi < vj
 }
 
 func (self *pnSlice) Sort() {
